@@ -1086,7 +1086,10 @@ class CodeGenerator(NodeVisitor):
             )
             loop_body()
         else:
-            self.writeline("yield from template._get_default_module()._body_stream")
+            self.writeline(
+                "for event in template._get_default_module()._body_stream:"
+            )
+            loop_body()
 
         if node.ignore_missing:
             self.outdent()
